@@ -463,7 +463,9 @@ def ord_compute_mass(repo, tier="quick"):
     param = ("param", fi.positional_params[0])
     obs = []
     hs = fi.flow.calls_to("pysmiles_utils:rebuild_h_atoms")
-    need(hs, "anchor vanished: compute_mass no longer calls rebuild_h_atoms", fi)
+    if not hs:
+        return [ob_fail("ORD.compute-mass", fi, construct="compute_mass without rebuild_h_atoms", instance="copy",
+                        reason="implicit hydrogens are not added before summing: element-derived masses miss them")]
     work = None
     for call, nid, _ in hs:
         t = fl.canon(call.args[0], nid) if call.args else None
